@@ -116,6 +116,16 @@ func pairFor(shape int) (*hlib.Build, *hlib.Build) {
 		distinct(X, Y, Z)
 		return &hlib.Build{Files: []hlib.File{{Path: "f", Data: append(clone(X), Y...)}}},
 			&hlib.Build{Files: []hlib.File{{Path: "f", Data: append(clone(Z), X...)}}}
+	case 4: // every kind of bowl bookkeeping at once: a renamed file (transposition) and a duplicated one before the file
+		// being patched when the interruption comes, a brand-new file after it, a deleted file, a directory and a
+		// symlink added, a directory removed
+		R, D, P, G := bytesOf("r", 2*B), bytesOf("d", B+1), bytesOf("p", 3*B), bytesOf("g", B)
+		NP := append(append(clone(P[:B]), bytesOf("ins", 2)...), P[B:]...)
+		F := bytesOf("fresh", 2*B+1)
+		distinct(R, D, P, G, NP, F)
+		return &hlib.Build{Files: []hlib.File{{Path: "a-renamed-from", Data: R}, {Path: "b-dup", Data: D}, {Path: "gone", Data: G}, {Path: "p", Data: P}}, Dirs: []string{"olddir"}},
+			&hlib.Build{Files: []hlib.File{{Path: "a-renamed-to", Data: clone(R)}, {Path: "b-dup", Data: clone(D)}, {Path: "b-dup2", Data: clone(D)}, {Path: "p", Data: NP}, {Path: "z-new", Data: F}},
+				Dirs: []string{"newdir/sub"}, Links: []hlib.Link{{Path: "lnk", Dest: "p"}}}
 	case 3: // the same with a longer moved region and an unchanged head
 		H, X, Y, Z := bytesOf("h", B), bytesOf("x", 3*B), bytesOf("y", 3*B), bytesOf("z", 3*B)
 		distinct(H, X, Y, Z)
